@@ -92,7 +92,7 @@ func init() {
 			"a position whose hostile value is accepted but never reaches SQL text (replaced, ignored or passed as a parameter) is not a violation: the statement restricts values that are spliced into SQL",
 			"values the JSON decoder or a closed value domain rejects (poll_duration, filter_agg, chainID) count as rejected",
 			"pg_url is not a position: the harness connects to its own fake server",
-			"the dashboard handlers are the real web.Handler.SaveIntegration/SaveSource with a real shovel.Manager; Manager.Restart is made to fail while loading (an undecodable stored integration is present during the POST) so that no free-running runner goroutines exist; tasks are then built with the same loadTasks (VerifLoadTasks) and stepped by the harness",
+			"the dashboard handlers are the real web.Handler.SaveIntegration/SaveSource with a real shovel.Manager; Manager.Restart is made to fail while loading (a stored integration naming a source that does not exist is present during the POST) so that no free-running runner goroutines exist; tasks are then built with the same loadTasks (VerifLoadTasks) and stepped by the harness",
 			"the operator creates the table a dashboard integration names (shovel never migrates database-stored integrations)",
 			"tasks on database-stored sources are loaded (their SQL is scanned) but not stepped: a stored source has poll duration 0",
 			"hyphen is accepted by validation but is not an identifier character: the hyphen control only has to pass validation, the plain control has to run the whole lifecycle",
@@ -235,7 +235,7 @@ func c15MakeBase(seed uint64, variant int) *c15Base {
 		"table": map[string]any{
 			"name":    "t_a",
 			"columns": c15Cols("who", "bytea", "amt", "numeric", "block_time", "numeric", "log_addr", "bytea", "spare", "text"),
-			"unique":  []any{strs("ig_name", "src_name", "block_num", "tx_idx", "log_idx", "abi_idx")},
+			"unique":  []any{strs("ig_name", "src_name", "block_num", "tx_idx", "log_idx", "abi_idx", "who")},
 			"index":   []any{strs("who"), strs("block_num desc", "tx_idx asc")},
 		},
 		"notification": map[string]any{"columns": strs("who", "block_num")},
@@ -801,6 +801,8 @@ func c15CountKinds(c *vk.Case, stmts []fakepg.Stmt) {
 	}
 }
 
+var c15KnownTypes = map[string]bool{"text": true, "bytea": true, "numeric": true, "int": true, "int2": true, "int4": true, "int8": true, "bool": true}
+
 var c15SafeIdent = regexp.MustCompile(`^[A-Za-z_][A-Za-z0-9_]*$`)
 
 // c15TableDDL is what the operator runs for a dashboard integration: the table
@@ -820,7 +822,7 @@ func c15TableDDL(ig map[string]any) (string, bool) {
 		m, _ := c.(map[string]any)
 		n, _ := m["name"].(string)
 		ty, _ := m["type"].(string)
-		if !c15SafeIdent.MatchString(n) || !c15SafeIdent.MatchString(ty) {
+		if !c15SafeIdent.MatchString(n) || !c15KnownTypes[ty] {
 			return "", false
 		}
 		defs = append(defs, n+" "+ty)
@@ -854,6 +856,7 @@ func c15Lifecycle(c *vk.Case, b *c15Base, doc map[string]any, lifecycle string, 
 		tasks    = env.Tasks
 		rejected string
 		skip     = map[string]bool{}
+		kept     = &[]fakepg.Stmt{} // statements shovel issued (the harness's own are dropped)
 	)
 	o.Stage = env.SetupStage
 	if env.SetupErr != nil {
@@ -874,7 +877,7 @@ func c15Lifecycle(c *vk.Case, b *c15Base, doc map[string]any, lifecycle string, 
 		c15Drive(env.PG, tasks, head, skip, &run)
 	}
 	if lifecycle == "dashboard" && rejected == "" {
-		rejected = c15Dashboard(c, env, w, doc, o, witness, &tasks, skip)
+		rejected = c15Dashboard(c, b, env, w, doc, o, witness, &tasks, skip, kept)
 		if rejected == "" {
 			c15Drive(env.PG, tasks, head, skip, &run)
 		}
@@ -892,7 +895,7 @@ func c15Lifecycle(c *vk.Case, b *c15Base, doc map[string]any, lifecycle string, 
 	if run.lastErr != "" && o.Error == "" {
 		o.Error = firstLines(run.lastErr, 2)
 	}
-	stmts := env.PG.TakeStmts()
+	stmts := append(*kept, env.PG.TakeStmts()...)
 	o.Stmts = len(stmts)
 	c.Obs("statements_scanned", int64(len(stmts)))
 	c15CountKinds(c, stmts)
@@ -951,21 +954,33 @@ func c15Lifecycle(c *vk.Case, b *c15Base, doc map[string]any, lifecycle string, 
 // c15Dashboard posts the source and the integration of the document to the
 // real handlers and loads tasks the way Manager.Run does. It returns a
 // rejection class or "".
-func c15Dashboard(c *vk.Case, env *scen.Env, w *c15World, doc map[string]any, o *c15Outcome, witness map[string]any, tasks *[]*shovel.Task, skip map[string]bool) string {
+func c15Dashboard(c *vk.Case, b *c15Base, env *scen.Env, w *c15World, doc map[string]any, o *c15Outcome, witness map[string]any, tasks *[]*shovel.Task, skip map[string]bool, kept *[]fakepg.Stmt) string {
 	ctx := context.Background()
+	// the harness's own statements are not shovel's: keep what shovel issued so far, drop ours
+	harnessExec := func(sql string, args ...any) error {
+		*kept = append(*kept, env.PG.TakeStmts()...)
+		_, err := env.Pool.Exec(ctx, sql, args...)
+		env.PG.TakeStmts()
+		return err
+	}
 	src, _ := w.subst(c15Copy(doc["$dash_source"])).(map[string]any)
 	ig, _ := w.subst(c15Copy(doc["$dash_integration"])).(map[string]any)
 	igJSON, _ := json.Marshal(ig)
 	witness["post_save_integration"] = string(igJSON)
 	witness["post_save_source"] = src
-	if ddl, ok := c15TableDDL(ig); ok {
-		if _, err := env.Pool.Exec(ctx, ddl); err != nil {
-			c.Inconclusive("creating the dashboard integration's table: %v", err)
-			return "harness-error"
-		}
+	// the operator has created the table the integration names (when it names one in plain
+	// identifiers and known types; otherwise the table of the unmodified declaration exists)
+	ddl, ok := c15TableDDL(ig)
+	if !ok {
+		ddl, _ = c15TableDDL(b.doc["$dash_integration"].(map[string]any))
 	}
-	// while this row is stored, loading tasks fails: Restart returns an error and starts no runners
-	if _, err := env.Pool.Exec(ctx, "insert into shovel.integrations(name, conf) values ($1, $2)", c15Bogus, []byte(`"undecodable"`)); err != nil {
+	if err := harnessExec(ddl); err != nil {
+		c.Inconclusive("creating the dashboard integration's table: %v", err)
+		return "harness-error"
+	}
+	// while this row is stored, loading tasks fails (it names a source that does not exist):
+	// Restart returns an error and starts no runners
+	if err := harnessExec("insert into shovel.integrations(name, conf) values ($1, $2)", c15Bogus, []byte(`{"name":"`+c15Bogus+`","enabled":true,"sources":[{"name":"no-such-source"}]}`)); err != nil {
 		c.Inconclusive("storing the blocker row: %v", err)
 		return "harness-error"
 	}
@@ -1004,7 +1019,7 @@ func c15Dashboard(c *vk.Case, env *scen.Env, w *c15World, doc map[string]any, o 
 	if pan1 != "" || pan2 != "" {
 		c.Seen("panics_outside_statement", o.Class+"|"+o.String+"|handler:"+vk.TopShovelFrame(pan1+pan2))
 	}
-	if _, err := env.Pool.Exec(ctx, "delete from shovel.integrations where name = $1", c15Bogus); err != nil {
+	if err := harnessExec("delete from shovel.integrations where name = $1", c15Bogus); err != nil {
 		c.Inconclusive("removing the blocker row: %v", err)
 		return "harness-error"
 	}
@@ -1068,12 +1083,21 @@ func c15Stored(pg *fakepg.Server, table, col, val string) bool {
 
 // ---------------------------------------------------------------- the case
 
-// classes whose values come from a closed domain: the control cannot be accepted there
-var c15ClosedDomain = map[string]bool{
-	"eth_sources[].poll_duration": true,
-	"integrations[].filter_agg":   true,
-	"save-source.chainID":         true,
-}
+// classes whose values come from a closed domain: the control cannot pass
+// validation there / cannot run (a column type must be a type that exists)
+var (
+	c15ClosedAccept = map[string]bool{
+		"eth_sources[].poll_duration": true,
+		"integrations[].filter_agg":   true,
+		"save-source.chainID":         true,
+	}
+	c15ClosedRun = map[string]bool{
+		"eth_sources[].poll_duration":         true,
+		"integrations[].filter_agg":           true,
+		"save-source.chainID":                 true,
+		"integrations[].table.columns[].type": true,
+	}
+)
 
 func c15Run(c *vk.Case) {
 	variant := c.Index / c15Shards
@@ -1165,7 +1189,7 @@ func c15Run(c *vk.Case) {
 						if inSQL {
 							controlInSQL++
 							c.Obs("control_marker_in_sql", 1)
-							c.Seen("positions_reaching_sql_text_"+j.lifecycle, j.class)
+							c.Seen("control_in_sql_text_incl_linked_names_"+j.lifecycle, j.class)
 						}
 					}
 					continue
@@ -1182,10 +1206,10 @@ func c15Run(c *vk.Case) {
 					"the value %q planted at %s (%s lifecycle) appears in SQL text: %s", s.Val, o.Path, j.lifecycle, firstLines(o.Marked[0], 1))
 			}
 		}
-		if controlRan == 0 && !c15ClosedDomain[j.class] {
+		if controlRan == 0 && !c15ClosedRun[j.class] {
 			c.Inconclusive("vacuous: the plain control string never ran the lifecycle at any position of %s (%s): %v", j.class, j.lifecycle, shortList(controlNotes, 3))
 		}
-		if controlAccepted == 0 && !c15ClosedDomain[j.class] {
+		if controlAccepted == 0 && !c15ClosedAccept[j.class] {
 			c.Inconclusive("vacuous: no control string was accepted at any position of %s (%s)", j.class, j.lifecycle)
 		}
 		_ = controlInSQL
